@@ -20,6 +20,8 @@ use sos_core::{
 };
 use std::panic::{catch_unwind, AssertUnwindSafe};
 mod reducer;
+mod search;
+mod tree;
 
 fn rt() -> tokio::runtime::Runtime {
     tokio::runtime::Builder::new_current_thread().build().unwrap()
@@ -304,6 +306,8 @@ fn main() {
             if all || ty == "CommitHash" { roundtrip!("CommitHash", CommitHash, |r: &mut Rng| CommitHash(r.arr()), cases, seed); }
             if all || ty == "Comparison" { roundtrip!("Comparison", Comparison, gen_comparison, cases, seed); }
         }
+        "search-index" => { search::run(cases, seed); }
+        "tree-compare" => { tree::run(cases); }
         "reducer-replay" => {
             rt().block_on(reducer::run(cases, seed));
         }
